@@ -9,6 +9,17 @@ ROOT = pathlib.Path(__file__).resolve().parent.parent
 
 # id -> (technique, level text, level_note, design_ref)
 CHECKS = {
+    "C17": (
+        "golden + differential monitor: the repo's own generate_schema.py is executed on the working tree and its four outputs compared path by path with the four published files; acceptance agreement jsonschema(published) vs pydantic on emitted documents and coinciding-semantics mutations",
+        "One execution per configuration of the real schema generator (fresh process) must reproduce the published strict/lax HUGR and testing "
+        "schemas as JSON values modulo the neutral `additionalProperties: true`; model version strings must equal the file-name suffixes and no "
+        "other schema file may exist. Supporting: hundreds (quick) / thousands (thorough) of emitted HUGR/package/extension documents and "
+        "mutations (required-key deletion, unknown keys, unknown tags, wrong containers) must get the same verdict from jsonschema under the "
+        "published file and from pydantic under the same configuration.",
+        "Trusted: pydantic's schema emission describing its own validation (sampled by the differential, one open known finding about strict "
+        "rebuilds); jsonschema Draft 2020-12. 'For all documents' is decided by structural identity, not by sampling.",
+        "DESIGN.md §3 C17",
+    ),
     "C10": (
         "round-trip + golden monitor: generated extensions vs their descriptors and their reloaded copies; byte equality of the bundled std files with the specification; helper-denotation checks against the specification's JSON",
         "1000 (quick) / 40000 (thorough) generated extensions (explicit/from-params TypeDefs with params of all kinds, mono/poly/binary OpDefs "
